@@ -217,7 +217,7 @@ Qed.
 (** ** the macro's own [EntraitT] parameter *)
 Lemma c19_impl_t bv :
   is_prefix [TId "EntraitT"] (print_gparam (impl_t_param bv)) = true /\
-  c19_bounds_ok [] (print_gparam (impl_t_param bv)) = true.
+  c19_bounds_ok [] (print_gparam (impl_t_param bv)) && c19_fixed_bounds (print_gparam (impl_t_param bv)) = true.
 Proof. destruct bv; vm_compute; auto. Qed.
 
 Definition abs_or_life (b : toks) : Prop :=
